@@ -48,6 +48,13 @@ def run(res, args):
         m = dict(type=ty, id=rng.getrandbits(12), itrf=rng.getrandbits(6), i1=rng.getrandbits(4), x=coord(rng), i2=rng.getrandbits(2),
                  y=coord(rng), i3=rng.getrandbits(2), z=coord(rng),
                  h=(rng.choice([0, 1, 65535, 9999, 10000, rng.getrandbits(16)]) if ty == 1006 else 0))
+        if rng.random() < 0.08:
+            # the same extreme in all three coordinates (a receiver that has not surveyed its position yet sends
+            # zeros; all-minimum / all-maximum / all -1), now and then with every other field zero as well
+            v = rng.choice([0, 0, 0, MIN38, MAX38, -1, 1])
+            m.update(x=v, y=v, z=v)
+            if rng.random() < 0.3:
+                m.update(id=0, itrf=0, i1=0, i2=0, i3=0, h=0)
         extra = gen.rand_bytes(rng, rng.choice([0, 0, 0, 1, 2, 8]))
         specs.append((m, extra))
     lines, e = common.run_lines(common.MODEL_BIN, "stspec", [
